@@ -857,6 +857,53 @@ func (ce *CEnv) evalCall(n *ast.CallExpr) (Val, error) {
 				return Val{}, fmt.Errorf("isnewloop outside of a loop clause")
 			}
 			return bval(IntCmp("<", a.C[0], ce.loopEntry.allocW)), nil
+		case "mapget", "mapok":
+			m, err := ce.eval(n.Args[0])
+			if err != nil {
+				return Val{}, err
+			}
+			kv, err := ce.eval(n.Args[1])
+			if err != nil {
+				return Val{}, err
+			}
+			mt, ok := m.T.Underlying().(*types.Map)
+			if !ok || len(kv.C) != 1 {
+				return Val{}, fmt.Errorf("%s: unsupported map/key", id.Name)
+			}
+			if isUntyped(kv) {
+				kv = convertConst(kv, mt.Key())
+			}
+			if id.Name == "mapok" {
+				return bval(UF("map."+typeKey(mt)+".ok", BoolSort, m.C[0], kv.C[0])), nil
+			}
+			out := Val{T: mt.Elem()}
+			for _, c := range layoutOf(mt.Elem()) {
+				out.C = append(out.C, UF("map."+typeKey(mt)+c.Path, c.Sort, m.C[0], kv.C[0]))
+			}
+			return out, nil
+		case "contains":
+			a, err := ce.eval(n.Args[0])
+			if err != nil {
+				return Val{}, err
+			}
+			b, err := ce.eval(n.Args[1])
+			if err != nil {
+				return Val{}, err
+			}
+			return bval(containsTerm(ce.st, a, b)), nil
+		case "ctxvalue":
+			// ctxvalue(ctx, KeyType): what ctx.Value(KeyType{}) returns (assumed contract of context)
+			a, err := ce.eval(n.Args[0])
+			if err != nil {
+				return Val{}, err
+			}
+			t, err := ce.resolveType(n.Args[1])
+			if err != nil {
+				return Val{}, err
+			}
+			key := Val{C: []*Term{IntConst(int64(typeID(t))), IntConst(0)}}
+			typ, val := ctxValue(a, key)
+			return Val{T: types.NewInterfaceType(nil, nil), C: []*Term{typ, val}}, nil
 		case "capt":
 			// capt(f, "name"): the variable captured under that name by the (known) closure f
 			a, err := ce.eval(n.Args[0])
